@@ -1365,3 +1365,88 @@ const MAX_TRANSMIT_DATAGRAMS: usize = 20;
 /// memory allocations when calling `poll_transmit()`. Benchmarks have shown
 /// that numbers around 10 are a good compromise.
 const MAX_TRANSMIT_SEGMENTS: usize = 10;
+
+/// Verification hook H4: census of the waker registrations held by a connection
+///
+/// Read-only snapshot used by external runtime monitors to detect registrations that outlive the
+/// future and handle they were made for. Only available with the off-by-default `verif` feature.
+#[cfg(feature = "verif")]
+#[derive(Debug, Clone, Default)]
+pub struct VerifRegistrations {
+    /// Streams with a waker registered in `blocked_readers`
+    pub blocked_readers: Vec<StreamId>,
+    /// Streams with a waker registered in `blocked_writers`
+    pub blocked_writers: Vec<StreamId>,
+    /// Streams with a notifier registered in `stopped`
+    pub stopped: Vec<StreamId>,
+    /// For each entry of `stopped`, the number of holders of the notifier besides the map itself
+    pub stopped_waiters: Vec<usize>,
+    /// Entries of `stopped` whose send half no longer exists in the protocol state
+    pub stopped_closed: Vec<StreamId>,
+    /// Whether the connection driver has parked its waker
+    pub driver_parked: bool,
+    /// Value of the handle reference count
+    pub handles: usize,
+    /// Whether the connection has been closed or lost
+    pub closed: bool,
+    /// Whether the connection is drained
+    pub drained: bool,
+}
+
+/// Verification hook H4: a handle that neither keeps the connection open nor alive
+#[cfg(feature = "verif")]
+#[derive(Debug, Clone)]
+pub struct VerifWeakConnection(std::sync::Weak<ConnectionInner>);
+
+#[cfg(feature = "verif")]
+impl VerifWeakConnection {
+    /// Snapshot the registrations, or `None` once the connection state has been freed
+    pub fn registrations(&self) -> Option<VerifRegistrations> {
+        let inner = self.0.upgrade()?;
+        Some(verif_registrations(&inner))
+    }
+}
+
+#[cfg(feature = "verif")]
+impl Connection {
+    /// Verification hook H4: snapshot the waker registrations of this connection
+    pub fn verif_registrations(&self) -> VerifRegistrations {
+        verif_registrations(&self.0.0)
+    }
+
+    /// Verification hook H4: obtain a handle that does not count towards implicit close
+    pub fn verif_weak(&self) -> VerifWeakConnection {
+        VerifWeakConnection(Arc::downgrade(&self.0.0))
+    }
+}
+
+#[cfg(feature = "verif")]
+fn verif_registrations(inner: &ConnectionInner) -> VerifRegistrations {
+    let state = &mut *inner.state.lock("verif_registrations");
+    let mut blocked_readers: Vec<StreamId> = state.blocked_readers.keys().copied().collect();
+    let mut blocked_writers: Vec<StreamId> = state.blocked_writers.keys().copied().collect();
+    let mut stopped: Vec<(StreamId, usize)> = state
+        .stopped
+        .iter()
+        .map(|(id, notify)| (*id, Arc::strong_count(notify) - 1))
+        .collect();
+    blocked_readers.sort();
+    blocked_writers.sort();
+    stopped.sort();
+    let stopped_closed = stopped
+        .iter()
+        .map(|(id, _)| *id)
+        .filter(|id| state.inner.send_stream(*id).stopped().is_err())
+        .collect();
+    VerifRegistrations {
+        blocked_readers,
+        blocked_writers,
+        stopped_waiters: stopped.iter().map(|(_, n)| *n).collect(),
+        stopped: stopped.into_iter().map(|(id, _)| id).collect(),
+        stopped_closed,
+        driver_parked: state.driver.is_some(),
+        handles: inner.shared.ref_count.load(Ordering::Relaxed),
+        closed: state.error.is_some(),
+        drained: state.inner.is_drained(),
+    }
+}
